@@ -68,6 +68,7 @@ type Chain struct {
 	W common.Address // bound token: bound to N of every peer (and to fakeTssTok from tss-idx)
 	B common.Address // bound token: bound to the base denomination (token 0) of every peer
 	U common.Address // native ERC-20 WITHOUT any trace on the other chains (destination execution fails)
+	A common.Address // token of the agent route 0 -> 1 -> 2: native on chain 0, bound to it on 1, bound to that on 2
 
 	dirty       bool  // something was delivered / written in the open block
 	lastTxBlock int64 // height of the last block in which something was delivered / written
@@ -291,7 +292,7 @@ func (e *Env) erc20Call(c *Chain, from common.Address, token common.Address, met
 }
 
 type needs struct {
-	erc20, base, notrace, tssTransfer bool
+	erc20, base, notrace, tssTransfer, agent bool
 }
 
 func scanNeeds(s *Spec) needs {
@@ -304,6 +305,9 @@ func scanNeeds(s *Spec) needs {
 				n.base = true
 			case "notrace":
 				n.notrace = true
+			case "agent":
+				n.agent = true
+				n.erc20 = true
 			default:
 				n.erc20 = true
 			}
@@ -395,6 +399,14 @@ func newEnv(spec *Spec) *Env {
 			e.erc20Call(c, endpAddr, c.U, "mint", c.tc.SenderAddress, big.NewInt(1000000000))
 			e.erc20Call(c, c.tc.SenderAddress, c.U, "approve", endpAddr, big1)
 		}
+	}
+	if nd.agent {
+		a, b, c := e.chains[0], e.chains[1], e.chains[2]
+		a.A, b.A, c.A = e.deployERC20(a), e.deployERC20(b), e.deployERC20(c)
+		e.erc20Call(a, endpAddr, a.A, "mint", a.tc.SenderAddress, big.NewInt(1000000000))
+		e.erc20Call(a, a.tc.SenderAddress, a.A, "approve", endpAddr, big1)
+		must(b.tc.App.AggregateKeeper.RegisterERC20Trace(b.ctx(), b.A, hexLower(a.A), a.name, 0))
+		must(c.tc.App.AggregateKeeper.RegisterERC20Trace(c.ctx(), c.A, hexLower(b.A), b.name, 0))
 	}
 	for _, c := range e.chains {
 		ak := c.tc.App.AggregateKeeper
